@@ -320,7 +320,45 @@ func sortInts(a []int) {
 
 // ---- group: structure-aware (field swaps, re-encoded semantic changes) -----------------
 
+// gapAfterOffsets inserts gap junk bytes behind the first nOff 4-byte offsets of an SSZ container / list and moves
+// those offsets by gap: every field is still found intact behind the gap, but the encoding is not the item's.
+func gapAfterOffsets(c []byte, nOff, gap int, rng *rand.Rand) []byte {
+	if nOff <= 0 || len(c) < 4*nOff {
+		return nil
+	}
+	out := make([]byte, 0, len(c)+gap)
+	for i := 0; i < nOff; i++ {
+		out = binary.LittleEndian.AppendUint32(out, le32(c[4*i:])+uint32(gap))
+	}
+	junk := make([]byte, gap)
+	rng.Read(junk)
+	out = append(out, junk...)
+	return append(out, c[4*nOff:]...)
+}
+
 func mutStructure(w *world, p *pair, rng *rand.Rand, tp tierParams, emit emitFn) {
+	// non-canonical layout: a gap between the offset table and the first field
+	nOff := 0
+	switch p.Kind {
+	case "header", "number":
+		nOff = 2
+	case "body":
+		if rb, ok := refParseBody(p.Content); ok {
+			nOff = 2
+			if rb.Shanghai {
+				nOff = 3
+			}
+		}
+	case "receipts":
+		if len(p.Content) >= 4 && le32(p.Content)%4 == 0 && int(le32(p.Content)) <= len(p.Content) {
+			nOff = int(le32(p.Content)) / 4
+		}
+	}
+	for _, gap := range []int{1, 4, 32} {
+		if m := gapAfterOffsets(p.Content, nOff, gap, rng); m != nil {
+			emit("ssz-gap-after-offsets", p.Key, m)
+		}
+	}
 	switch p.Kind {
 	case "header", "number":
 		mutStructHeader(w, p, rng, tp, emit)
